@@ -78,6 +78,8 @@ func hasFail(fs []fail, kind string) bool {
 
 var scripts = []string{"killed-replace", "price-drop-extend", "kill-twice-close", "challenge-cycle", "challenge-cycle", "exhaust-write-pool"}
 
+var scriptsC04 = []string{"third-party-extend", "owner-handover", "third-party-extend", "owner-handover", "killed-replace", "price-drop-extend", "kill-twice-close", "challenge-cycle"}
+
 func histKey(h Hist) string {
 	b, _ := json.Marshal(h.Ops)
 	return h.Salt + string(b)
@@ -167,6 +169,12 @@ func main() {
 
 	var rh Hist
 	if o.LoadReplay(&rh) {
+		if len(rh.Blobbers) == 0 {
+			// a replay recorded by another engine of the same check: nothing to re-run here
+			rep.Note("replay input is not a storage history; skipped")
+			finish()
+			return
+		}
 		handle(rh, true, nil)
 		finish()
 		return
@@ -191,6 +199,9 @@ func main() {
 		g := &Gen{R: hr, Prop: prop, step: -1}
 		if hr.Chance(1, 2) {
 			g.script, g.step = scripts[hr.Intn(len(scripts))], 0
+			if prop == "C04" {
+				g.script = scriptsC04[hr.Intn(len(scriptsC04))]
+			}
 		}
 		run := NewRun(h)
 		nops := hr.Range(5, o.N(40, 80))
